@@ -643,6 +643,8 @@ def _array_function(func, args, kwargs):
         a = args[0]
         axis = kwargs.get("axis", args[1] if len(args) > 1 else None)
         pa = _plain(a)
+        if pa.ndim == 0 and axis is not None:
+            raise np.exceptions.AxisError(f"axis {axis} is out of bounds for array of dimension 0")
         if axis is None and pa.ndim > 1:
             pa = pa.reshape(-1)
             axis = 0
